@@ -1,8 +1,200 @@
-/- line-protocol handlers for C18 (stub: not built yet) -/
+/- line-protocol handlers for C18 (catalogue constructors).
+
+Exact rationals cross the protocol as `p/q`, floats as binary64 bit patterns, signed-square amplitudes as `sgn:p/q`. -/
 import Driver.Loop
+import NumqiModel.Catalogue
 
 namespace Numqi.Driver.C18
+open Numqi Numqi.Catalogue
 
-def handle (_args : List String) : String := "bad-op"
+instance : NatCast Float := ⟨Nat.toFloat⟩
+
+def fOfBits? (s : String) : Option Float := s.toNat?.bind fun n =>
+  if n < 2^64 then some (Float.ofBits (UInt64.ofNat n)) else none
+def bitsOfF (x : Float) : String := toString x.toBits.toNat
+def fListStr (l : List Float) : String := ";".intercalate (l.map bitsOfF)
+
+def rat? (s : String) : Option Rat :=
+  match s.splitOn "/" with
+  | [p, q] => do
+      let p ← p.toInt?; let q ← q.toNat?
+      if q = 0 then none else some ((p : Rat) / (q : Rat))
+  | [p] => do let p ← p.toInt?; pure (p : Rat)
+  | _ => none
+def ratStr (r : Rat) : String := s!"{r.num}/{r.den}"
+def ratListStr (l : List Rat) : String := ";".intercalate (l.map ratStr)
+def sampStr (a : SAmp) : String := s!"{a.sgn}:{ratStr (if a.sgn = 0 then 0 else a.sq)}"
+def sampListStr (l : List SAmp) : String := ";".intercalate (l.map sampStr)
+
+def qi? (s : String) : Option QI :=
+  match s.splitOn "," with
+  | [a, b] => do let x ← rat? a; let y ← rat? b; pure ⟨x, y⟩
+  | [a] => do let x ← rat? a; pure ⟨x, 0⟩
+  | _ => none
+
+/-- all `(i,j,k,l)` in row-major order of the flat `(d²)×(d²)` matrix -/
+def bipartiteEntries (d : Nat) (f : Nat → Nat → Nat → Nat → Rat) : List Rat :=
+  (List.range d).flatMap fun i => (List.range d).flatMap fun j =>
+    (List.range d).flatMap fun k => (List.range d).map fun l => f i j k l
+
+def flatEntries {β : Type} (n : Nat) (f : Nat → Nat → β) : List β :=
+  (List.range n).flatMap fun r => (List.range n).map fun c => f r c
+
+/-- split a list into consecutive chunks of the given sizes -/
+def chunks {β : Type} : List Nat → List β → List (List β)
+  | [], _ => []
+  | n :: ns, l => l.take n :: chunks ns (l.drop n)
+
+def entropy2 (t : Float) : Float := -t * Float.log t - (1 - t) * Float.log (1 - t)
+
+def tableOf? : String → Option UPBTable
+  | "tiles" => some upbTiles
+  | "feng4x4" => some upbFeng4x4
+  | "feng2x2x2x2" => some upbFeng2x2x2x2
+  | _ => none
+
+def handle (args : List String) : String :=
+  match args with
+  | ["werner", d, a] => Id.run do
+      -- `a`: binary64 bit pattern; the range assertion is evaluated on the float, the matrix on its exact rational value
+      let some d := d.toNat? | return "bad-op"
+      let some af := fOfBits? a | return "bad-op"
+      let some ab := a.toNat? | return "bad-op"
+      if d < 2 then return "error:assert"
+      if d > 6 then return "bad-op"
+      if !(-1 <= af && af <= 1) then return "error:assert"
+      return ratListStr (bipartiteEntries d (werner d (ratOfFloatBits ab)))
+  | ["isotropic", d, a] => Id.run do
+      let some d := d.toNat? | return "bad-op"
+      let some af := fOfBits? a | return "bad-op"
+      let some ab := a.toNat? | return "bad-op"
+      if d < 2 then return "error:assert"
+      if d > 6 then return "bad-op"
+      if !(-1 / (d * d - 1 : Nat).toFloat <= af && af <= 1) then return "error:assert"
+      return ratListStr (bipartiteEntries d (isotropic d (ratOfFloatBits ab)))
+  | ["maxmixed", d] => Id.run do
+      let some d := d.toNat? | return "bad-op"
+      if d < 1 then return "error:assert"
+      if d > 6 then return "bad-op"
+      return ratListStr (flatEntries (d * d) (maxMixed (α := Rat) d))
+  | ["antoine", q] => Id.run do
+      let some qf := fOfBits? q | return "bad-op"
+      let some qb := q.toNat? | return "bad-op"
+      if !(-2.5 <= qf && qf <= 2.5) then return "error:assert"
+      return ratListStr (flatEntries 9 (antoine (5/2 : Rat) 21 2 (ratOfFloatBits qb)))
+  | ["horo24", b] => Id.run do
+      let some b := fOfBits? b | return "bad-op"
+      if !(b >= 0 && b <= 1) then return "error:assert"
+      return fListStr (flatEntries 8 (horodecki2x4 (7 : Float) 14 2 b (Float.sqrt (1 - b * b))))
+  | ["horo33", a] => Id.run do
+      let some a := fOfBits? a | return "bad-op"
+      if !(a >= 0 && a <= 1) then return "error:assert"
+      return fListStr (flatEntries 9 (horodecki3x3 (8 : Float) 16 2 a (Float.sqrt (1 - a * a))))
+  | ["ketw", n] => Id.run do
+      let some n := n.toNat? | return "bad-op"
+      if n < 1 || n > 12 then return "bad-op"
+      return sampListStr ((List.range (2 ^ n)).map (ketW n))
+  | ["ghz", n] => Id.run do
+      let some n := n.toNat? | return "bad-op"
+      if n < 1 then return "error:assert"
+      if n > 12 then return "bad-op"
+      return sampListStr ((List.range (2 ^ n)).map (ketGHZ n))
+  | ["bell", i] => Id.run do
+      let some i := i.toNat? | return "bad-op"
+      if i > 3 then return "error:assert"
+      return sampListStr ((List.range 4).map (ketBell i))
+  | ["maxent", d] => Id.run do
+      let some d := d.toNat? | return "bad-op"
+      if d < 2 then return "error:assert"
+      if d > 40 then return "bad-op"
+      return sampListStr (flatEntries d (ketMaxEnt d))
+  | ["maxcoh", d] => Id.run do
+      let some d := d.toNat? | return "bad-op"
+      if d < 1 then return "error:assert"
+      if d > 200 then return "bad-op"
+      return sampListStr ((List.range d).map (ketMaxCoh d))
+  | ["maxcohdm", d] => Id.run do
+      let some d := d.toNat? | return "bad-op"
+      if d < 1 then return "error:assert"
+      if d > 40 then return "bad-op"
+      return ratListStr (flatEntries d (dmMaxCoh d))
+  | ["dicke", ks] => Id.run do
+      let some ks := parseNatList? ks | return "bad-op"
+      if ks.length < 2 then return "error:assert"
+      if ks.length ^ ks.sum > 5000 then return "bad-op"
+      return sampListStr ((List.range (ks.length ^ ks.sum)).map (ketDicke ks))
+  | ["wtype", cs] => Id.run do
+      let some cs := (cs.splitOn ";").mapM fOfBits? | return "bad-op"
+      if cs.length > 12 then return "bad-op"
+      let nrm := Float.sqrt (cs.foldl (fun acc c => acc + c * c) 0)
+      return fListStr ((List.range (2 ^ cs.length)).map (ketWtype cs nrm))
+  | ["wgme", d, a] => Id.run do
+      let some d := d.toNat? | return "bad-op"
+      let some a := fOfBits? a | return "bad-op"
+      if d < 2 then return "error:assert"
+      return bitsOfF (wernerGME Float.sqrt 2 d a)
+  | ["igme", d, a] => Id.run do
+      let some d := d.toNat? | return "bad-op"
+      let some a := fOfBits? a | return "bad-op"
+      if d < 2 then return "error:assert"
+      return bitsOfF (isotropicGME Float.sqrt d a)
+  | ["weof", d, a] => Id.run do
+      let some d := d.toNat? | return "bad-op"
+      let some a := fOfBits? a | return "bad-op"
+      return bitsOfF (wernerEof (fun a => entropy2 ((1 - Float.sqrt (1 - a * a)) / 2)) d a)
+  | ["ieof", d, a] => Id.run do
+      let some d := d.toNat? | return "bad-op"
+      let some a := fOfBits? a | return "bad-op"
+      let df : Float := d.toFloat
+      let v1 : Float → Float := fun F =>
+        let g := (Float.sqrt F + Float.sqrt ((df - 1) * (1 - F))) ^ 2 / df
+        entropy2 g + (1 - g) * Float.log (df - 1)
+      let v2 : Float → Float := fun F => df * Float.log (df - 1) * (F - 1) / (df - 2) + Float.log df
+      return bitsOfF (isotropicEof v1 v2 4 d a)
+  | ["wree", d, a] => Id.run do
+      -- only the branch is modelled: "zero" on the separable range, "generic" (value of the external routine) otherwise
+      let some d := d.toNat? | return "bad-op"
+      let some a := fOfBits? a | return "bad-op"
+      return if wernerRee d a (1 : Float) == 0 then "zero" else "generic"
+  | ["iree", d, a] => Id.run do
+      let some d := d.toNat? | return "bad-op"
+      let some a := fOfBits? a | return "bad-op"
+      return if isotropicRee d a (1 : Float) == 0 then "zero" else "generic"
+  | ["upbtable", name] => Id.run do
+      let some t := tableOf? name | return "bad-op"
+      return " ".intercalate (t.map fun party => "|".intercalate (party.map sampListStr))
+  | ["upbcheck", name] => Id.run do
+      let some t := tableOf? name | return "bad-op"
+      return if upbTableOrthonormal t then "1" else "0"
+  | ["upbbes", m, dims, vals] => Id.run do
+      -- `vals`: all parties concatenated; party p holds m vectors of length dims[p]
+      let some m := m.toNat? | return "bad-op"
+      let some dims := parseNatList? dims | return "bad-op"
+      let some vals := (vals.splitOn ";").mapM qi? | return "bad-op"
+      if vals.length ≠ m * dims.sum then return "bad-op"
+      let D := dims.foldl (· * ·) 1
+      if D > 40 then return "bad-op"
+      let parties := chunks (dims.map (· * m)) vals
+      let partyVecs : List (List (List QI)) := (parties.zip dims).map fun (p, d) => chunks (List.replicate m d) p
+      let prod : List (List QI) := (List.range m).map fun a => upbProductRow (partyVecs.map fun pv => pv.getD a [])
+      let ent := flatEntries D (upbComplement prod)
+      return ";".intercalate (ent.map QI.toStr)
+  | ["tetra", n] => Id.run do
+      let some n := n.toNat? | return "bad-op"
+      if n < 1 || n > 3 then return "bad-op"
+      let a : Float := Float.sqrt 2 / 3
+      let b : Float := Float.sqrt (2 / 3)
+      let third : Float := 1 / 3
+      let ent := (List.range (4 ^ n)).flatMap fun k => flatEntries (2 ^ n) (tetraN a b third 0.25 2 n k)
+      return ";".intercalate (ent.map fun z => s!"{bitsOfF z.1},{bitsOfF z.2}")
+  | ["cheb0", d] => Id.run do
+      let some d := d.toNat? | return "bad-op"
+      if d < 2 || d > 40 then return "bad-op"
+      return fListStr (flatEntries d (chebBasis0 d))
+  | ["cheb1", d] => Id.run do
+      let some d := d.toNat? | return "bad-op"
+      if d < 2 || d > 40 then return "bad-op"
+      return fListStr (flatEntries d (chebBasis1 d))
+  | _ => "bad-op"
 
 end Numqi.Driver.C18
